@@ -9,7 +9,7 @@ use futures::TryStreamExt;
 use object_store::{GetOptions, GetRange, ObjectMeta, ObjectStore, path::Path};
 use serde::{Deserialize, Serialize};
 
-#[derive(Clone, Copy, Debug, PartialEq, Eq, Serialize, Deserialize)]
+#[derive(Clone, Copy, Debug, PartialEq, Eq, Hash, Serialize, Deserialize)]
 pub enum Rng {
     B(u64, u64),
     O(u64),
